@@ -19,7 +19,7 @@ def Tok.sheetOk (n : Nat) : Tok → Prop
   | _ => True
 
 theorem sheetXlsb_ok (ctx : Ctx) (i : Nat) (h : i < ctx.sheets.length) :
-    sheetXlsb ctx i = .ok ((ctx.sheets[i]?).getD []) := by
+    sheetXlsb ctx i = (ctx.sheets[i]?).getD [] := by
   simp [sheetXlsb, h]
 
 theorem db_ref (ctx : Ctx) (c : Nat) (a : CellRef) (hwf : (Tok.ref c a).wf false) (rest : Bytes) :
@@ -28,7 +28,7 @@ theorem db_ref (ctx : Ctx) (c : Nat) (a : CellRef) (hwf : (Tok.ref c a).wf false
   obtain ⟨hc, hr, hcol⟩ := hwf
   have hcr := colRel_lt a hcol
   rcases cls_cases c hc with rfl | rfl | rfl <;>
-  simp [decodeTokXlsb, isMemFunc, encXlsb, opc, decodeXlsb, actOf, need_16, need_32, need_zero, u16_le16, u32_le32,
+  simp [decodeTokXlsb, isMemFunc, encXlsb, opc, decodeXlsb, actOf, need_16, need_32, need_unfold, need_zero, u16_le16, u32_le32,
     u16_skip32, drop_16, drop_32, hr, hcr, cellRef_colRel, hcol]
 
 theorem db_area (ctx : Ctx) (c : Nat) (a a2 : CellRef) (hwf : (Tok.area c a a2).wf false) (rest : Bytes) :
@@ -39,7 +39,7 @@ theorem db_area (ctx : Ctx) (c : Nat) (a a2 : CellRef) (hwf : (Tok.area c a a2).
   have hcr := colRel_lt a hcol
   have hcr2 := colRel_lt a2 hcol2
   rcases cls_cases c hc with rfl | rfl | rfl <;>
-  simp [decodeTokXlsb, isMemFunc, encXlsb, opc, decodeXlsb, actOf, need_16, need_32, need_zero, u16_le16, u32_le32,
+  simp [decodeTokXlsb, isMemFunc, encXlsb, opc, decodeXlsb, actOf, need_16, need_32, need_unfold, need_zero, u16_le16, u32_le32,
     u16_skip32, u32_skip32, u16_skip16, drop_16, drop_32, hr, hcr, cellRef_colRel, hcol, hr2, hcr2, hcol2]
 
 theorem db_ref3d (ctx : Ctx) (c i : Nat) (a : CellRef) (hwf : (Tok.ref3d c i a).wf false)
@@ -50,7 +50,7 @@ theorem db_ref3d (ctx : Ctx) (c i : Nat) (a : CellRef) (hwf : (Tok.ref3d c i a).
   obtain ⟨hc, hi, hr, hcol⟩ := hwf
   have hcr := colRel_lt a hcol
   rcases cls_cases c hc with rfl | rfl | rfl <;>
-  simp [decodeTokXlsb, isMemFunc, encXlsb, opc, decodeXlsb, actOf, envOfXlsb, need_16, need_32, need_zero, u16_le16,
+  simp [decodeTokXlsb, isMemFunc, encXlsb, opc, decodeXlsb, actOf, envOfXlsb, need_16, need_32, need_unfold, need_zero, u16_le16,
     u32_le32, u16_skip32, u16_skip16, u32_skip16, drop_16, drop_32, hr, hcr, cellRef_colRel, hcol, hi,
     sheetXlsb_ok ctx i hs]
 
@@ -63,19 +63,19 @@ theorem db_area3d (ctx : Ctx) (c i : Nat) (a a2 : CellRef) (hwf : (Tok.area3d c 
   have hcr := colRel_lt a hcol
   have hcr2 := colRel_lt a2 hcol2
   rcases cls_cases c hc with rfl | rfl | rfl <;>
-  simp [decodeTokXlsb, isMemFunc, encXlsb, opc, decodeXlsb, actOf, envOfXlsb, need_16, need_32, need_zero, u16_le16,
+  simp [decodeTokXlsb, isMemFunc, encXlsb, opc, decodeXlsb, actOf, envOfXlsb, need_16, need_32, need_unfold, need_zero, u16_le16,
     u32_le32, u16_skip32, u32_skip32, u16_skip16, u32_skip16, drop_16, drop_32, hr, hcr, cellRef_colRel, hcol, hr2,
     hcr2, hcol2, hi, sheetXlsb_ok ctx i hs]
 
 theorem db_refErr (ctx : Ctx) (c : Nat) (hwf : (Tok.refErr c).wf false) (rest : Bytes) :
     decodeTokXlsb ctx (encXlsb (Tok.refErr c) ++ rest) = .ok (actOf (envOfXlsb ctx) false (Tok.refErr c), rest) := by
   rcases cls_cases c hwf with rfl | rfl | rfl <;>
-  simp [decodeTokXlsb, isMemFunc, encXlsb, opc, decodeXlsb, actOf, zeros, List.replicate, need_succ, need_zero]
+  simp [decodeTokXlsb, isMemFunc, encXlsb, opc, decodeXlsb, actOf, zeros, List.replicate, need_succ, need_unfold, need_zero]
 
 theorem db_areaErr (ctx : Ctx) (c : Nat) (hwf : (Tok.areaErr c).wf false) (rest : Bytes) :
     decodeTokXlsb ctx (encXlsb (Tok.areaErr c) ++ rest) = .ok (actOf (envOfXlsb ctx) false (Tok.areaErr c), rest) := by
   rcases cls_cases c hwf with rfl | rfl | rfl <;>
-  simp [decodeTokXlsb, isMemFunc, encXlsb, opc, decodeXlsb, actOf, zeros, List.replicate, need_succ, need_zero]
+  simp [decodeTokXlsb, isMemFunc, encXlsb, opc, decodeXlsb, actOf, zeros, List.replicate, need_succ, need_unfold, need_zero]
 
 theorem db_refErr3d (ctx : Ctx) (c i : Nat) (hwf : (Tok.refErr3d c i).wf false) (hs : i < ctx.sheets.length)
     (rest : Bytes) :
@@ -84,7 +84,7 @@ theorem db_refErr3d (ctx : Ctx) (c i : Nat) (hwf : (Tok.refErr3d c i).wf false) 
   obtain ⟨hc, hi⟩ := hwf
   rcases cls_cases c hc with rfl | rfl | rfl <;>
   simp [decodeTokXlsb, isMemFunc, encXlsb, opc, decodeXlsb, actOf, envOfXlsb, zeros, List.replicate, need_16, need_succ,
-    need_zero, u16_le16, drop_16, hi, sheetXlsb_ok ctx i hs]
+    need_unfold, need_zero, u16_le16, drop_16, hi, sheetXlsb_ok ctx i hs]
 
 theorem db_areaErr3d (ctx : Ctx) (c i : Nat) (hwf : (Tok.areaErr3d c i).wf false) (hs : i < ctx.sheets.length)
     (rest : Bytes) :
@@ -93,23 +93,23 @@ theorem db_areaErr3d (ctx : Ctx) (c i : Nat) (hwf : (Tok.areaErr3d c i).wf false
   obtain ⟨hc, hi⟩ := hwf
   rcases cls_cases c hc with rfl | rfl | rfl <;>
   simp [decodeTokXlsb, isMemFunc, encXlsb, opc, decodeXlsb, actOf, envOfXlsb, zeros, List.replicate, need_16, need_succ,
-    need_zero, u16_le16, drop_16, hi, sheetXlsb_ok ctx i hs]
+    need_unfold, need_zero, u16_le16, drop_16, hi, sheetXlsb_ok ctx i hs]
 
 theorem db_name (ctx : Ctx) (c i : Nat) (hwf : (Tok.name c i).wf false) (rest : Bytes) :
     decodeTokXlsb ctx (encXlsb (Tok.name c i) ++ rest) = .ok (actOf (envOfXlsb ctx) false (Tok.name c i), rest) := by
   obtain ⟨hc, hi⟩ := hwf
   rcases cls_cases c hc with rfl | rfl | rfl <;>
-  simp [decodeTokXlsb, isMemFunc, encXlsb, opc, decodeXlsb, actOf, envOfXlsb, need_32, need_zero, u32_le32, drop_32, hi]
+  simp [decodeTokXlsb, isMemFunc, encXlsb, opc, decodeXlsb, actOf, envOfXlsb, need_32, need_unfold, need_zero, u32_le32, drop_32, hi]
 
 theorem db_int (ctx : Ctx) (n : Nat) (hwf : (Tok.int n).wf false) (rest : Bytes) :
     decodeTokXlsb ctx (encXlsb (Tok.int n) ++ rest) = .ok (actOf (envOfXlsb ctx) false (Tok.int n), rest) := by
   simp [Tok.wf] at hwf
-  simp [decodeTokXlsb, isMemFunc, encXlsb, decodeXlsb, actOf, need_16, need_zero, u16_le16, drop_16, hwf]
+  simp [decodeTokXlsb, isMemFunc, encXlsb, decodeXlsb, actOf, need_16, need_unfold, need_zero, u16_le16, drop_16, hwf]
 
 theorem db_num (ctx : Ctx) (bits : Nat) (hwf : (Tok.num bits).wf false) (rest : Bytes) :
     decodeTokXlsb ctx (encXlsb (Tok.num bits) ++ rest) = .ok (actOf (envOfXlsb ctx) false (Tok.num bits), rest) := by
   simp [Tok.wf] at hwf
-  simp [decodeTokXlsb, isMemFunc, encXlsb, decodeXlsb, actOf, envOfXlsb, need_64, need_zero, u64_le64, drop_64, hwf]
+  simp [decodeTokXlsb, isMemFunc, encXlsb, decodeXlsb, actOf, envOfXlsb, need_64, need_unfold, need_zero, u64_le64, drop_64, hwf]
 
 theorem db_str (ctx : Ctx) (w : Bool) (s : List Char) (hwf : (Tok.str w s).wf false) (rest : Bytes) :
     decodeTokXlsb ctx (encXlsb (Tok.str w s) ++ rest) = .ok (actOf (envOfXlsb ctx) false (Tok.str w s), rest) := by
@@ -120,11 +120,12 @@ theorem db_str (ctx : Ctx) (w : Bool) (s : List Char) (hwf : (Tok.str w s).wf fa
   rw [h17]
   have hm : isMemFunc 0x17 = false := by decide
   simp only [hm, Bool.false_eq_true, if_false, decodeXlsb]
-  rw [show (2 : Nat) = 0 + 2 from rfl, need_16, need_zero, u16_le16 _ _ hlen]
+  have hl16 : ∀ (m : Nat) (r : Bytes), (le16 m ++ r).length = 2 + r.length := by intro m r; simp [le16]; omega
+  rw [need_ok false _ 2 (by rw [hl16]; omega), show (2 : Nat) = 0 + 2 from rfl, u16_le16 _ _ hlen]
   simp only [Res.bind_ok]
-  rw [Nat.add_comm (0 + 2), need_16, drop_16, ← unitsLe_length, Nat.add_zero, need_self]
+  rw [need_ok false _ _ (by rw [hl16, List.length_append, unitsLe_length]; omega)]
   simp only [Res.bind_ok]
-  rw [List.drop_left' rfl]
+  rw [Nat.add_comm (0 + 2), drop_16, Nat.zero_add, ← unitsLe_length, List.drop_left' rfl]
   have hu : units (le16 (utf16Units s).length ++ (unitsLe (utf16Units s) ++ rest)) 2 (utf16Units s).length =
       utf16Units s := by
     rw [show (2 : Nat) = 0 + 2 from rfl, units_skip16, units_unitsLe _ (utf16Units_lt s)]
@@ -133,14 +134,14 @@ theorem db_str (ctx : Ctx) (w : Bool) (s : List Char) (hwf : (Tok.str w s).wf fa
 
 theorem db_bool (ctx : Ctx) (v : Bool) (_hwf : (Tok.bool v).wf false) (rest : Bytes) :
     decodeTokXlsb ctx (encXlsb (Tok.bool v) ++ rest) = .ok (actOf (envOfXlsb ctx) false (Tok.bool v), rest) := by
-  cases v <;> simp [decodeTokXlsb, isMemFunc, encXlsb, decodeXlsb, actOf, need_succ, need_zero, byteAt_zero]
+  cases v <;> simp [decodeTokXlsb, isMemFunc, encXlsb, decodeXlsb, actOf, need_succ, need_unfold, need_zero, byteAt_zero]
 
 theorem db_err (ctx : Ctx) (code : Nat) (hwf : (Tok.err code).wf false) (rest : Bytes) :
     decodeTokXlsb ctx (encXlsb (Tok.err code) ++ rest) = .ok (actOf (envOfXlsb ctx) false (Tok.err code), rest) := by
   have h8 : code < 256 := by
     simp [Tok.wf] at hwf
     rcases hwf with rfl | rfl | rfl | rfl | rfl | rfl | rfl | rfl <;> decide
-  simp [decodeTokXlsb, isMemFunc, encXlsb, decodeXlsb, actOf, need_succ, need_zero, byteAt_zero, toNat_ofNat8 _ h8,
+  simp [decodeTokXlsb, isMemFunc, encXlsb, decodeXlsb, actOf, need_succ, need_unfold, need_zero, byteAt_zero, toNat_ofNat8 _ h8,
     errText_errName code hwf]
 
 theorem db_missArg (ctx : Ctx) (rest : Bytes) :
@@ -159,7 +160,7 @@ theorem db_simple (ctx : Ctx) (t : Tok) (h : t = .uplus ∨ t = .uminus ∨ t = 
     (rest : Bytes) :
     decodeTokXlsb ctx (encXlsb t ++ rest) = .ok (actOf (envOfXlsb ctx) false t, rest) := by
   rcases h with rfl | rfl | rfl | rfl | rfl <;>
-  simp [decodeTokXlsb, isMemFunc, encXlsb, decodeXlsb, actOf, need_succ, need_zero, byteAt_zero]
+  simp [decodeTokXlsb, isMemFunc, encXlsb, decodeXlsb, actOf, need_succ, need_unfold, need_zero, byteAt_zero]
 
 theorem db_attrSkip (ctx : Ctx) (e w : Nat) (hwf : (Tok.attrSkip e w).wf false) (rest : Bytes) :
     decodeTokXlsb ctx (encXlsb (Tok.attrSkip e w) ++ rest) =
@@ -167,7 +168,7 @@ theorem db_attrSkip (ctx : Ctx) (e w : Nat) (hwf : (Tok.attrSkip e w).wf false) 
   obtain ⟨he, hw⟩ := hwf
   simp at he
   rcases he with rfl | rfl | rfl | rfl | rfl <;>
-  simp [decodeTokXlsb, isMemFunc, encXlsb, decodeXlsb, actOf, need_succ, need_16, need_zero, byteAt_zero, drop_16]
+  simp [decodeTokXlsb, isMemFunc, encXlsb, decodeXlsb, actOf, need_succ, need_16, need_unfold, need_zero, byteAt_zero, drop_16]
 
 theorem db_func (ctx : Ctx) (c iftab : Nat) (hwf : (Tok.func c iftab).wf false) (rest : Bytes) :
     decodeTokXlsb ctx (encXlsb (Tok.func c iftab) ++ rest) =
@@ -180,7 +181,7 @@ theorem db_func (ctx : Ctx) (c iftab : Nat) (hwf : (Tok.func c iftab).wf false) 
   have hnl : ¬ iftab ≥ Gen.ftabLen := by omega
   rcases cls_cases c hc with rfl | rfl | rfl <;>
   · simp only [decodeTokXlsb, encXlsb, opc, List.cons_append]
-    simp only [isMemFunc, decodeXlsb, decodeFuncFixed, actOf, need_16, need_zero, u16_le16 _ _ hi16, drop_16, hnl, hn,
+    simp only [isMemFunc, decodeXlsb, decodeFuncFixed, actOf, need_16, need_unfold, need_zero, u16_le16 _ _ hi16, drop_16, hnl, hn,
       Res.bind_ok, if_false, Option.getD_some, List.drop_zero]
     first | rfl | simp
 
@@ -193,7 +194,7 @@ theorem db_funcVar (ctx : Ctx) (c argc iftab : Nat) (hwf : (Tok.funcVar c argc i
     omega
   rcases cls_cases c hc with rfl | rfl | rfl <;>
   · simp only [decodeTokXlsb, encXlsb, opc, List.cons_append]
-    simp only [isMemFunc, decodeXlsb, decodeFuncVar, actOf, need_succ, need_16, need_zero, u16_succ, byteAt_zero,
+    simp only [isMemFunc, decodeXlsb, decodeFuncVar, actOf, need_succ, need_16, need_unfold, need_zero, u16_succ, byteAt_zero,
       u16_le16 _ _ hi16, toNat_ofNat8 _ ha, Res.bind_ok, List.drop_succ_cons, drop_16, List.drop_zero]
     first | rfl | simp
 
